@@ -30,6 +30,7 @@ func specC10() *propertySpec {
 			{"C10-R4", "survive-panicking-cleanup: a deferred function of cleanup re-invokes cleanup while callbacks remain", ruleC10R4},
 			{"C10-R5", "context-protocol: Context returns the stored ctx, creates it once under the write lock, and returns a cancelled context while cleaning", ruleC10R5},
 			{"C10-R6", "synchronous: no go statement in non-test code", ruleC10R6},
+			{"C10-R7", "context-parent-outlives-the-invocation: the TB handed to newT is a TB that was handed in (a tb parameter, the tb of another T), never a *T itself — a T used as TB makes Context() derive from that T's context, which its cleanup phase has cancelled and cleared while callbacks that may still draw are running", ruleNewTTB},
 		},
 	}
 }
@@ -1413,4 +1414,44 @@ func cleanupsEmptyLit(lit string) bool {
 		return true
 	}
 	return false
+}
+
+// ruleNewTTB (C10-R7): (*T).Context takes its parent from t.tb when that has a Context method. *T has one. A T whose tb
+// is another T therefore hands out children of that T's context: during the outer T's cleanup phase (cleaning set,
+// context cancelled and cleared) outer.Context() is already cancelled, so a Custom generator drawn from a cleanup
+// callback runs with a dead context for the whole call.
+func ruleNewTTB(r *Run) {
+	p := r.P
+	n := 0
+	for _, fn := range p.allFuncs() {
+		for _, cs := range p.callsTo(fn, "newT") {
+			n++
+			bad := ""
+			isT := func(v ssa.Value) {
+				for i := 0; i < 4 && v != nil; i++ {
+					if mi, ok := v.(*ssa.MakeInterface); ok {
+						if isPtrToNamed(mi.X.Type(), "T") {
+							bad = p.expr(mi.X)
+						}
+						return
+					}
+					if isPtrToNamed(v.Type(), "T") {
+						bad = p.expr(v)
+						return
+					}
+					nv := p.resolve(v)
+					if nv == v {
+						return
+					}
+					v = nv
+				}
+			}
+			isT(cs.Common.Args[0])
+			for _, a := range p.alternatives(cs.Common.Args[0], 0) {
+				isT(a.Val)
+			}
+			r.Check(p.hostName(fn)+"#newT.tb", cs.Instr.Pos(), bad == "", "the TB of the new T is a TB that was handed in, not a T", "newT is given the T "+bad+" as its TB: Context() of the new T then derives from that T's context, which is cancelled (and replaced by an already cancelled one) as soon as that T starts its cleanup phase — a generator function drawn from a cleanup callback sees a dead context during its call")
+		}
+	}
+	r.Floor("newT call sites", n, 5)
 }
